@@ -72,6 +72,10 @@ def trace_invariant(out):
         pos = off + n
     if pos != len(image):
         return f"statement sizes sum to {pos} but the image has {len(image)} bytes"
+    # the address a loader will use: the .bin container's header carries exactly the base the labels were computed from
+    blob = driver.pd().formats.file_formats["bin"](base, image)
+    if len(blob) < 4 or struct.unpack("<HH", blob[:4]) != (base & 0xFFFF, len(image) & 0xFFFF) or blob[4:] != image:
+        return f"the .bin container of base {base:o} / {len(image)} bytes starts with {blob[:4].hex()} and carries {len(blob) - 4} bytes"
     return None
 
 
